@@ -22,7 +22,7 @@ DOC = {
  "C04.R4": "spawned task: every path from loop completion to the end passes through exactly one finish (unique, not in a cycle); the guard is captured by the task (cancellation drops it)",
  "C04.R5": "cleanup is one-shot: effects only on the armed edge; `armed` is written only after set_status(Stopped); finish consumes self",
  "C04.R6": "classification table of the exit event in both runtimes and in Drop (constants 'killed', 'actor_task_cancelled', notify_on_cancel gate)",
- "C04.R7": "mark_running only after pre_start Ok (and after the successful link, Send); ActorStarted only after post_start Ok and set_status(Running), once",
+ "C04.R7": "mark_running only after pre_start Ok (and after the successful link, Send); ActorStarted only after post_start Ok and set_status(Running), once, and then on every path (unconditional)",
  "C04.R8": "supervision port writers: tree notification (targets originate from the actor's own supervisor/monitors fields), pg, pid registry",
  "C04.R10": "= C03.R4: outcome table of the message step in both runtimes (signal -> killed result, handler Err -> Err exit, Stop/Drained -> graceful result): the classification of C04.R6 (`killed` / failed / terminated-with-reason) is fed by these per-branch outcomes, so a kill landing in a supervision handler must not be turned into a graceful stop",
  "C04.R9": "= C05.R5/R1: the supervisor slot an exit event is addressed to is cleared only by its owner (unlink identity test) and notify precedes unlink",
@@ -355,6 +355,10 @@ def r7(run, db):
                 good = ok_edge and lb.edge_dominates(ok_edge, site) and result_layers_checked(brs, (2, 3)) and all(b["cont_edge"] and lb.edge_dominates(b["cont_edge"], site) for b in brs)
                 run.check(good, "%s|ActorStarted-after-post_start-ok" % rt, "ActorStarted is dominated by post_start's Ok edges", "ActorStarted can be sent although post_start failed", lb.where())
                 run.check(bool(running) and lb.dominates(running[0].site, site), "%s|ActorStarted-after-Running" % rt, "ActorStarted is sent after set_status(Running)", None, lb.where())
+                if running:
+                    run.check(lb.must_pass(running[0].site, [site]), "%s|ActorStarted-unconditional" % rt,
+                              "once post_start succeeded and Running was published, ActorStarted is sent on every path (it does not depend on what the status was before)",
+                              "ActorStarted can be skipped after a successful post_start (a path from set_status(Running) to the message loop avoids it, e.g. a test of the previous status): an actor drained while it was starting up comes up, works off its mailbox and terminates -- its supervisor gets the terminal event without ever having seen ActorStarted", lb.where())
 
 
 def r8(run, db):
